@@ -124,6 +124,11 @@ def binMeans (ss dims : List Nat) (v : List K) : List K :=
 def binWMean (s : Nat) (dims : List Nat) (v w : List K) : List K :=
   List.zipWith (· / ·) (binND s dims (List.zipWith (· * ·) v w)) (binND s dims w)
 
+/-- the weighted mean with one factor per axis (`subsample_field(field, array, new_grid, 'mean')` on a non-regular
+grid): `Σ_bin v·w / Σ_bin w`, whatever the size of the weights (no threshold below which weights "are equal") -/
+def binWMeans (ss dims : List Nat) (v w : List K) : List K :=
+  List.zipWith (· / ·) (binNDs ss dims (List.zipWith (· * ·) v w)) (binNDs ss dims w)
+
 end
 
 /-! ## Dithered supersampling (`evaluate_supersampled` on separated grids) -/
@@ -146,6 +151,12 @@ variable {K : Type} [Add K] [Zero K] [Mul K] [Div K] [Sub K] [NatCast K]
 /-- `make_uniform_grid(n, 1)` along one axis: `(j + 1/2)/n - 1/2`, `j < n` -/
 def dithers1 (n : Nat) : List K :=
   (List.range n).map fun j => ((2 * j + 1 : Nat) : K) / ((2 * n : Nat) : K) - (1 : Nat) / (2 : Nat)
+
+/-- `make_supersampled_grid(grid, n)` along one axis of a regular grid (`zero`, `delta`, `dim` points): `dim·n` points
+with spacing `delta/n` starting at `zero - delta/2 + (delta/n)/2` -/
+def superAxis (zero delta : K) (dim n : Nat) : List K :=
+  (List.range (dim * n)).map fun (k : Nat) =>
+    (zero - delta / ((2 : Nat) : K) + delta / (n : K) / ((2 : Nat) : K)) + (k : K) * (delta / (n : K))
 
 /-- the per-point cell widths `evaluate_supersampled` uses along one axis:
 `x₁-x₀`, then `(x_{i+1}-x_{i-1})/2`, then `x_{n-1}-x_{n-2}` -/
